@@ -58,6 +58,15 @@ CHECKS = {
         "level_note": "Chunk membership is derived from reference rows and row-group row counts. False-positive rate is not a property and is not measured.",
         "design_ref": "DESIGN.md §4 C07",
     },
+    "C02": {
+        "pkg": "c02", "level": "exploration", "selftest": True,
+        "quick": {"shards": 8, "checks": 400, "timeout": 900},
+        "thorough": {"shards": 16, "checks": 6000, "timeout": 5000},
+        "technique": "property-based testing (rapid) with an independent decoder as oracle: generated files are parsed and decoded by a from-the-spec reader and compared with the reference Dremel streams",
+        "level_text": "Random search over every file the writer can emit in the C01 domain; the oracle is a reader that shares no code with the library (own thrift compact parser, page walker, level/value decoders for all encodings, snappy and LZ4 block decoders) checking ~30 structural consistency rules and value equality. This is the only way to see writer bugs that the library's own reader tolerates.",
+        "level_note": "The decoder is my reading of the format documents (self-tested on /repo/testdata third-party files). zstd/brotli decompression and gzip come from upstream packages / the standard library. WriteRowGroup-produced files are verified by the same walker from C11; SortingWriter files from C10.",
+        "design_ref": "DESIGN.md §4 C02",
+    },
 }
 
 NOT_APPLICABLE = {
